@@ -131,6 +131,10 @@ pub struct Knobs {
     pub allow_faults: bool,
     /// avoid the triggers of open known findings (names listed)
     pub avoid: Vec<String>,
+    /// L1 over the real file system through the library (`Source::FileSystem` itself):
+    /// nothing outside the scratch directory, no injected faults, and now and then another
+    /// program creating folders in the output location
+    pub real_lib: bool,
 }
 
 fn rule_filter_variant(rng: &mut Rng, rule: &str) -> String {
@@ -156,7 +160,8 @@ pub fn generate(seed: u64, knobs: &Knobs) -> C10Scenario {
     let mut ro = Rng::stream(seed, "orders");
     let mut rk = Rng::stream(seed, "knobs");
 
-    let backend = if knobs.layer == Layer::L1 && rk.chance(1, 6) {
+    let real = knobs.layer == Layer::LW || knobs.real_lib;
+    let backend = if knobs.layer == Layer::L1 && !knobs.real_lib && rk.chance(1, 6) {
         Backend::Memory
     } else {
         Backend::SimFs
@@ -167,9 +172,9 @@ pub fn generate(seed: u64, knobs: &Knobs) -> C10Scenario {
         allow_file_input: true,
         allow_bundle: true,
         memory_safe: backend == Backend::Memory,
-        allow_outside: knobs.layer != Layer::LW,
+        allow_outside: !real,
         allow_source_alias: false,
-        allow_late_luaurc: knobs.layer != Layer::LW,
+        allow_late_luaurc: !real,
     };
     let graph_mode = knobs.include_graph && knobs.layer == Layer::L1;
     let pk = if graph_mode {
@@ -243,6 +248,7 @@ pub fn generate(seed: u64, knobs: &Knobs) -> C10Scenario {
     // configuration stays fixed (a configuration change re-processes files that were
     // already rewritten) and uses rules that are visibly not the identity yet idempotent.
     let in_place = knobs.layer == Layer::L1
+        && !knobs.real_lib
         && !graph_mode
         && project.bundle.is_none()
         && !project.convert
@@ -1292,7 +1298,7 @@ pub fn generate(seed: u64, knobs: &Knobs) -> C10Scenario {
                     || !sim
                     || !knobs.allow_faults
                     || in_place
-                    || knobs.layer == Layer::LW
+                    || real
                 {
                     continue;
                 }
@@ -1414,7 +1420,7 @@ pub fn generate(seed: u64, knobs: &Knobs) -> C10Scenario {
             }
             _ => {
                 // injected I/O faults during the next pass, then recovery
-                if !knobs.allow_faults || in_place || !sim || world.sources.is_empty() || knobs.layer == Layer::LW {
+                if !knobs.allow_faults || in_place || !sim || world.sources.is_empty() || real {
                     continue;
                 }
                 let i = rf.below(world.sources.len());
@@ -1514,6 +1520,46 @@ pub fn generate(seed: u64, knobs: &Knobs) -> C10Scenario {
     if !matches!(ops.last(), Some(Op::Pass)) {
         ops.push(Op::Pass);
     }
+
+    let mut ops = ops;
+    if knobs.real_lib {
+        // another program creates folders inside the output location, right before
+        // sources go away (when darklua prunes what it thinks it generated)
+        let input = gen::normalize(&opts.input);
+        let region = opts.output.as_deref().map(gen::normalize).unwrap_or_default();
+        let input_is_dir = entries.iter().any(|e| e.path.starts_with(&format!("{}/", input)));
+        if input_is_dir && !region.is_empty() && region != input {
+            let mut rd = Rng::stream(seed, "foreign-dirs");
+            let mut with_foreign: Vec<Op> = Vec::new();
+            let mut counter = 0;
+            for op in ops {
+                let gone = match &op {
+                    Op::RemoveFile { path } => Some((path.clone(), true)),
+                    Op::RemoveDir { path } => Some((path.clone(), false)),
+                    Op::Rename { from, .. } => Some((from.clone(), gen::is_lua(from))),
+                    _ => None,
+                };
+                if let Some((path, is_file)) = gone {
+                    if let Some(rel) = path.strip_prefix(&format!("{}/", input)) {
+                        if rd.chance(1, 2) {
+                            let rel_dir = if is_file { gen::parent(rel) } else { rel };
+                            let dir = if rel_dir.is_empty() { region.clone() } else { gen::join(&region, rel_dir) };
+                            counter += 1;
+                            let name = if rd.chance(1, 2) {
+                                format!("late-foreign-{}", counter)
+                            } else {
+                                format!("late-foreign-{}/assets/images", counter)
+                            };
+                            with_foreign.push(Op::ForeignDir { path: gen::join(&dir, &name) });
+                        }
+                    }
+                }
+                with_foreign.push(op);
+            }
+            ops = with_foreign;
+        }
+    }
+    let backend = if knobs.real_lib { Backend::RealLib } else { backend };
 
     C10Scenario {
         seed,
